@@ -179,6 +179,20 @@ func (u *Universe) msgCase(out *bufio.Writer, ti *TypeInfo, v *Val, o buildOpts)
 		return
 	}
 	after, _ := u.read(ti, m)
+	// the bytes Marshal returns belong to the caller: overwriting them (and their spare capacity) must not reach into the
+	// message (a result that aliases one of the message's own slices would)
+	if pan == "" {
+		kept := append([]byte{}, data...)
+		full := data[:cap(data)]
+		for i := range full {
+			full[i] ^= 0xff
+		}
+		if scribbled, err := u.read(ti, m); err == nil && scribbled.String() != after.String() {
+			after = scribbled
+			detail = append(detail, "message changed when the bytes returned by Marshal were overwritten")
+		}
+		data = kept
+	}
 	if before.String() != after.String() {
 		flags = append(flags, "immut=bad")
 		detail = append(detail, "after-marshal="+after.String())
@@ -249,7 +263,7 @@ func (u *Universe) msgCase(out *bufio.Writer, ti *TypeInfo, v *Val, o buildOpts)
 		flags = append(flags, "c06=bad")
 	} else if want.String() != wantQ.String() {
 		flags = append(flags, "c06=na") // float32 signalling NaN: not representable in the reference reflection API
-	} else if !ti.S.hasMap(ti.MI) {
+	} else if !ti.S.noRefBytes(ti.MI) {
 		re, err := u.oracleRemarshal(ti, data)
 		switch {
 		case err != nil:
@@ -266,7 +280,7 @@ func (u *Universe) msgCase(out *bufio.Writer, ti *TypeInfo, v *Val, o buildOpts)
 	}
 	// reference encoding of the value (validates the Coq ref_encode)
 	refb := "-"
-	if ti.S.hasMap(ti.MI) {
+	if ti.S.noRefBytes(ti.MI) {
 		// protobuf-go always writes both key and value of a map entry, picobuf omits defaults:
 		// both are valid, so reference *bytes* are only compared for map-free types (C06's domain)
 	} else if dm, err := u.toDyn(ti, wantQ); err == nil {
